@@ -20,6 +20,10 @@ POOLERR = 'deadpool::managed::errors::PoolError'
 TIMEOUT_TYPE = 'deadpool::managed::errors::TimeoutType'
 
 
+# any of these on Hooks.<list>.vec identifies the list a registration method feeds (R04.3 then insists on push)
+VEC_MUTATORS = ('push', 'insert', 'extend', 'append', 'extend_from_slice', 'push_within_capacity', 'splice')
+
+
 def hook_roles(ctx, r):
     """bind pre_recycle / post_recycle / post_create fields of Hooks through the public builder methods"""
     out = {}
@@ -30,7 +34,9 @@ def hook_roles(ctx, r):
         an = ctx.prog.an(b)
         fld = None
         for blk in b.blocks:
-            if blk.term.kind == 'call' and blk.term.rcallee and strip_generics(blk.term.rcallee) == HOOKVEC + '::push':
+            if blk.term.kind == 'call' and blk.term.rcallee and not blk.cleanup and \
+                    (strip_generics(blk.term.rcallee) == HOOKVEC + '::push' or
+                     strip_generics(blk.term.rcallee).rsplit('::', 1)[0] == 'std::vec::Vec' and strip_generics(blk.term.rcallee).rsplit('::', 1)[1] in VEC_MUTATORS):
                 for s in sources(an, blk.term.args[0]):
                     if s[0] == 'field' and s[1].startswith(r.HOOKS + '.'):
                         fld = s[1].split('.')[-1]
